@@ -18,6 +18,7 @@ mod kernel;
 mod prng;
 mod sets;
 mod simrng;
+mod world;
 
 use common::*;
 use std::collections::BTreeMap;
@@ -85,10 +86,12 @@ fn main() {
         "c10" => "C10",
         "c16" => "C16",
         "digest" => "C17",
+        "world" => "WORLD",
         _ => "-",
     };
+    let prop = if mode == "world" { extra.get("prop").cloned().unwrap_or_else(|| "-".to_string()) } else { prop.to_string() };
     let ctx = Ctx {
-        prop: prop.to_string(),
+        prop,
         tier,
         seed,
         flavour,
@@ -109,6 +112,7 @@ fn main() {
         "c10" => c10::run(&ctx),
         "c16" => c16::run(&ctx),
         "digest" => digest::run(&ctx),
+        "world" => world::run(&ctx),
         "replay" => replay(&ctx, positional.first().map(String::as_str).unwrap_or_else(|| harness_error("replay needs a file"))),
         _ => harness_error("unknown mode"),
     };
@@ -145,6 +149,7 @@ fn replay(ctx: &Ctx, file: &str) -> i32 {
         "C05" => c05::replay_body(&body),
         "C10" => c10::replay_body(&body),
         "C16" => c16::replay_body(&body),
+        "C01" | "C09" | "C11" | "C13" => world::replay_body(&body),
         _ => harness_error("replay: unknown property in file"),
     };
     match got {
